@@ -27,7 +27,24 @@ SBoxTable == <<
     \He1, \Hf8, \H98, \H11, \H69, \Hd9, \H8e, \H94, \H9b, \H1e, \H87, \He9, \Hce, \H55, \H28, \Hdf,
     \H8c, \Ha1, \H89, \H0d, \Hbf, \He6, \H42, \H68, \H41, \H99, \H2d, \H0f, \Hb0, \H54, \Hbb, \H16 >>
 SBox(x) == SBoxTable[x + 1]
-InvSBoxTable == Eager([y \in 1..256 |-> CHOOSE x \in 0..255 : SBoxTable[x + 1] = y - 1])
+(* 5.3.2 inverse S-box (figure 14); MCMdVectors checks InvSBox(SBox(a)) = a for all a *)
+InvSBoxTable == <<
+    \H52, \H09, \H6a, \Hd5, \H30, \H36, \Ha5, \H38, \Hbf, \H40, \Ha3, \H9e, \H81, \Hf3, \Hd7, \Hfb,
+    \H7c, \He3, \H39, \H82, \H9b, \H2f, \Hff, \H87, \H34, \H8e, \H43, \H44, \Hc4, \Hde, \He9, \Hcb,
+    \H54, \H7b, \H94, \H32, \Ha6, \Hc2, \H23, \H3d, \Hee, \H4c, \H95, \H0b, \H42, \Hfa, \Hc3, \H4e,
+    \H08, \H2e, \Ha1, \H66, \H28, \Hd9, \H24, \Hb2, \H76, \H5b, \Ha2, \H49, \H6d, \H8b, \Hd1, \H25,
+    \H72, \Hf8, \Hf6, \H64, \H86, \H68, \H98, \H16, \Hd4, \Ha4, \H5c, \Hcc, \H5d, \H65, \Hb6, \H92,
+    \H6c, \H70, \H48, \H50, \Hfd, \Hed, \Hb9, \Hda, \H5e, \H15, \H46, \H57, \Ha7, \H8d, \H9d, \H84,
+    \H90, \Hd8, \Hab, \H00, \H8c, \Hbc, \Hd3, \H0a, \Hf7, \He4, \H58, \H05, \Hb8, \Hb3, \H45, \H06,
+    \Hd0, \H2c, \H1e, \H8f, \Hca, \H3f, \H0f, \H02, \Hc1, \Haf, \Hbd, \H03, \H01, \H13, \H8a, \H6b,
+    \H3a, \H91, \H11, \H41, \H4f, \H67, \Hdc, \Hea, \H97, \Hf2, \Hcf, \Hce, \Hf0, \Hb4, \He6, \H73,
+    \H96, \Hac, \H74, \H22, \He7, \Had, \H35, \H85, \He2, \Hf9, \H37, \He8, \H1c, \H75, \Hdf, \H6e,
+    \H47, \Hf1, \H1a, \H71, \H1d, \H29, \Hc5, \H89, \H6f, \Hb7, \H62, \H0e, \Haa, \H18, \Hbe, \H1b,
+    \Hfc, \H56, \H3e, \H4b, \Hc6, \Hd2, \H79, \H20, \H9a, \Hdb, \Hc0, \Hfe, \H78, \Hcd, \H5a, \Hf4,
+    \H1f, \Hdd, \Ha8, \H33, \H88, \H07, \Hc7, \H31, \Hb1, \H12, \H10, \H59, \H27, \H80, \Hec, \H5f,
+    \H60, \H51, \H7f, \Ha9, \H19, \Hb5, \H4a, \H0d, \H2d, \He5, \H7a, \H9f, \H93, \Hc9, \H9c, \Hef,
+    \Ha0, \He0, \H3b, \H4d, \Hae, \H2a, \Hf5, \Hb0, \Hc8, \Heb, \Hbb, \H3c, \H83, \H53, \H99, \H61,
+    \H17, \H2b, \H04, \H7e, \Hba, \H77, \Hd6, \H26, \He1, \H69, \H14, \H63, \H55, \H21, \H0c, \H7d >>
 InvSBox(y) == InvSBoxTable[y + 1]
 
 (* 4.2 multiplication in GF(2^8) modulo x^8 + x^4 + x^3 + x + 1 *)
